@@ -34,6 +34,10 @@ CHECKS = {
    "bounded-exhaustive enumeration of exon layouts/CDS bounds/orientations/offsets plus breadth-first search over sequences of accepted and rejected SetExons/Add operations on real transcripts, compared with a plain model after every operation",
    "Every set of <=3 intervals in [0,5] (thorough [0,6]) as an exon set (accepted and rejected), every CDS, every orientation combination over three nesting levels, offsets 0/3, location chains up to the documented depth 1000; every operation sequence of depth <=3 (thorough 4) over 13 accepted/rejected updates with and without spare capacity.",
    "Small scope; chains use a harness feature type; the depth-1001 panic is documented behaviour and not required by the statement."),
+ "C16": (E2, "model_checking", "DESIGN.md §3 C16",
+   "exhaustive enumeration of feature-pair multisets x every insertion order x orientation x filter on the real Piler, differential across orders and against a union-find reference",
+   "Every multiset of <=3 pairs over all intervals in [0,5] (thorough [0,6]) on one location and every multiset of <=2 pairs over two locations, every insertion order, both orientations of each pair, four filters, repeated Piles calls and re-insertion of each pair: partition, pile extents, disjointness, membership, mate links and duplicate rejection compared with a union-find model on every case.",
+   "Zero overlap slack only (as the statement says); small coordinates; Piles is called after all Adds."),
 }
 PENDING = {}  # id -> reason, for properties not (yet) claimed
 
